@@ -40,7 +40,7 @@ func errorFamilySteps() []*Expr {
 		sKey("a"), sKey("zz"), sAnyArray(), sAnyKey(), sIndex(sub1(eInt(0))), sIndex(sub1(eInt(5))), sIndex(sub1(eInt(0)), sub1(eInt(1))), sIndex(sub1(eVar("missing"))),
 		sAny(0, -1),
 		sMethod("double"), sMethod("integer"), sMethod("size"), sMethod("keyvalue"), sMethod("type"),
-		sDecimal(i64(0), nil), sDecimal(i64(1), i64(1001)), sDecimal(i64(1), i64(0)),
+		sDecimal(i64(0), nil), sDecimal(i64(1), i64(1001)), sDecimal(i64(1), i64(0)), sDecimal(i64(2147483648), nil), sDecimal(i64(5), i64(-2147483649)),
 		sDT("timestamp_tz", nil), sDT("date", nil), {K: KDT, S: "datetime", T: &tpl}, sDT("datetime", nil),
 		sFilter(eCmp("==", eCur(), eInt(1))), sFilter(eCmp("==", eCur(), eVar("missing"))), sFilter(eExists(eCur(sKey("a")))),
 		sFilter(eIsUnknown(eCmp("==", eCur(sKey("a")), eInt(1)))), sFilter(eCmp("==", eCur(sKey("a"), sMethod("double")), eInt(1))),
@@ -61,6 +61,31 @@ func errorFamilyPaths(maxLen int) []*Expr {
 		es = append(es, eExists(a), eStartsWith(a, eStr("a")), eLikeRegex(a, "a", ""), eRoot(sIndex(sub1(a))), eNot(eExists(a)), eIsUnknown(eCmp("==", a, eInt(1))))
 	}
 	return es
+}
+
+// keyvalueWalks: a path (and operands) that walk the key/value pairs of an object and fail on one of
+// them, with the failing member first, in the middle and last in key order.
+func keyvalueWalks() ([]*Expr, []any) {
+	var es []*Expr
+	kvv := []*Expr{sMethod("keyvalue"), sKey("value")}
+	for _, m := range []string{"double", "integer", "abs"} {
+		chain := append(append([]*Expr{}, kvv...), sMethod(m))
+		for _, pf := range []*Expr{eRoot(), eRoot(sAnyArray()), eRoot(sKey("a"))} {
+			es = append(es, pf.withSteps(chain...), pf.withSteps(sFilter(eCmp(">", eCur(chain...), eInt(0)))), pf.withSteps(sFilter(eExists(eCur(chain...)))),
+				pf.withSteps(sFilter(eIsUnknown(eCmp(">", eCur(chain...), eInt(0))))), eExists(pf.withSteps(chain...)), eCmp("==", pf.withSteps(chain...), eInt(1)),
+				pf.withSteps(sMethod("keyvalue"), sFilter(eCmp("==", eCur(sKey("value")), eInt(1))), sKey("key")), pf.withSteps(sMethod("keyvalue"), sFilter(eCmp("==", eCur(sKey("key")), eStr("b"))), sKey("value")))
+		}
+	}
+	var vals []any
+	for _, a := range []any{float64(1), "x", float64(-1)} {
+		for _, b := range []any{float64(1), "x"} {
+			for _, c := range []any{float64(1), "x"} {
+				o := map[string]any{"a": a, "b": b, "c": c}
+				vals = append(vals, o, []any{o, map[string]any{"a": c, "b": a}}, map[string]any{"a": o})
+			}
+		}
+	}
+	return es, vals
 }
 
 func epDocs() []docEntry {
@@ -84,6 +109,7 @@ func epSweep(r *Run, rule string, paths []Path, docs []docEntry, cfgs []sweepCfg
 		}
 		p := paths[i]
 		text := p.String()
+		r.Note(i, text)
 		parsed, err, pan := parseCached(text)
 		if err != nil || pan != "" {
 			r.Fail(Case{Rule: rule, Path: text}, &Failure{Sig: r.ID + "/generated-path-does-not-parse", Expected: "parses", Observed: fmt.Sprint(err, pan)})
